@@ -431,9 +431,11 @@ def handle_frame_contract():
         requires=[VALID, Clause("delivery-only-while-ready", "self._state == 3 and self._decrypt_cipher is not None", "property", ["C03", "C08"]),
                   ("nonce-nonneg", "self._decrypt_cipher._nonce >= 0")],
         ensures=[
-            P("C03", "delivers-exactly-the-authenticated-message",
-              f"frame == aead_enc({K}, old(self._decrypt_cipher._nonce), {D}) and ghost.packets == old(ghost.packets) + ((({D})[0] * 256 + ({D})[1], ({D})[4:]),)"),
-            P("C03", "nonce-advances-by-one", "self._decrypt_cipher._nonce == old(self._decrypt_cipher._nonce) + 1"),
+            Clause("delivers-exactly-the-authenticated-message",
+                   f"frame == aead_enc({K}, old(self._decrypt_cipher._nonce), {D}) and ghost.packets == old(ghost.packets) + ((({D})[0] * 256 + ({D})[1], ({D})[4:]),)",
+                   "property", ["C03", "C04"]),
+            # (C04) returning normally means the frame authenticated under the next nonce and was consumed: no frame is skipped silently
+            Clause("nonce-advances-by-one", "self._decrypt_cipher._nonce == old(self._decrypt_cipher._nonce) + 1", "property", ["C03", "C04"]),
             MONO, VALID, GROWS,
         ],
         raises={
